@@ -251,8 +251,8 @@ class Cache:
                 if isinstance(col, Col)
             ):
                 return "nested window / aggregation functions in `summarize`"
-            if any(self.cols[uid].ftype() == Ftype.WINDOW for uid in self.partition_by):
-                return "window function among grouping columns"
+            if any(self.cols[uid].ftype() in (Ftype.WINDOW, Ftype.AGGREGATE) for uid in self.partition_by):
+                return "window / aggregation function among grouping columns"
 
         if isinstance(node, verbs.Join):
             if self.group_by:
